@@ -13,7 +13,7 @@ git apply "$CD/patch.diff" || { echo "FAIL: patch does not apply"; exit 1; }
 cargo test --workspace --offline >"$LOG" 2>&1; SUITE=$?
 PASSED=$(grep -E "^test result: ok. [0-9]+ passed" "$LOG" | head -1)
 cp "$CD/demo.rs" tests/zz_seeded_demo.rs
-FEAT=$(grep -oE '\-\-features[ =][^ "]+' "$CD/meta.json" | head -1)
+FEAT=$(grep -oE '\-\-features[ =][A-Za-z0-9_,-]+' "$CD/meta.json" | grep -v 'features needed' | head -1)
 cargo test --offline $FEAT --test zz_seeded_demo >"$LOG.with" 2>&1; WITH=$?
 git checkout -q -- .
 cargo test --offline $FEAT --test zz_seeded_demo >"$LOG.without" 2>&1; WITHOUT=$?
